@@ -164,3 +164,35 @@ func ReadJSON(path string, v any) error {
 	}
 	return json.Unmarshal(b, v)
 }
+
+// Opaque embeds a value as a JSON string: TLC carries it along untouched
+// (replay inputs contain nulls and nested maps the Json module rejects).
+func Opaque(v any) string {
+	b, err := json.Marshal(v)
+	if err != nil {
+		panic(err)
+	}
+	return string(b)
+}
+
+// ReplayInput extracts the opaque "input" of a replay file: either a single
+// event or {"events":[...]} whose first event carries the input.
+func ReplayInput(path string, into any) error {
+	var rp struct {
+		Input  string `json:"input"`
+		Events []struct {
+			Input string `json:"input"`
+		} `json:"events"`
+	}
+	if err := ReadJSON(path, &rp); err != nil {
+		return err
+	}
+	in := rp.Input
+	if in == "" && len(rp.Events) > 0 {
+		in = rp.Events[0].Input
+	}
+	if in == "" {
+		return os.ErrNotExist
+	}
+	return json.Unmarshal([]byte(in), into)
+}
